@@ -459,6 +459,10 @@ impl UnionMerger {
     pub fn schema(vs: Vec<Runtype>) -> Runtype {
         let mut acc = Self::new();
         acc.consume(vs);
+        if acc.0.len() == 1 {
+            // every member was the same type: the union is that type
+            return acc.0.into_iter().next().expect("we just checked len");
+        }
         Runtype::new(RuntypeKind::AnyOf(acc.0))
     }
 }
